@@ -3,6 +3,7 @@ package c14
 import (
 	"fmt"
 	"sort"
+	"strconv"
 	"strings"
 	"time"
 
@@ -286,23 +287,90 @@ func (c *call) valid() bool {
 	return true
 }
 
-// minimise drops keywords as long as the same kind of failure remains, so
-// that the signature names only the keywords the failure needs. It is a
-// deterministic function of the call: the first reduction (fixed order) that
-// keeps the failure is taken, recursively. Verdicts of reduced calls are
-// memoised inside the process (a pure cache: it never changes a result).
+// candidates lists the simpler neighbours of a call, simplest move first:
+// drop one keyword, then drop one element of one sequence (bounding indices
+// behind it move down by one).
+func candidates(c *call) []*call {
+	var out []*call
+	for _, red := range reductions(c) {
+		d := c.clone()
+		if red(d) && d.valid() {
+			out = append(out, d)
+		}
+	}
+	for i := range c.seqs {
+		for j := len(c.seqs[i]) - 1; 0 <= j; j-- {
+			d := c.clone()
+			d.seqs[i] = c.seqs[i][:j] + c.seqs[i][j+1:]
+			switch {
+			case i == 0:
+				if d.hasStart && j < d.start {
+					d.start--
+				}
+				if d.hasEnd && !d.endNil && j < d.end {
+					d.end--
+				}
+				if d.subEnd != "" && d.subEnd != "nil" {
+					if e, _ := strconv.Atoi(d.subEnd); j < e {
+						d.subEnd = strconv.Itoa(e - 1)
+					}
+				}
+			case i == 1:
+				if d.hasStart2 && j < d.start2 {
+					d.start2--
+				}
+				if d.hasEnd2 && !d.endNil2 && j < d.end2 {
+					d.end2--
+				}
+			}
+			if d.valid() {
+				out = append(out, d)
+			}
+		}
+	}
+	// write a sequence / the result as a plain list when the failure does not need the type
+	upper := false
+	for _, q := range c.seqs {
+		upper = upper || strings.ToLower(q) != q
+	}
+	for i := range c.typs {
+		if t := c.typs[i]; t == 'N' || t == 'V' || t == 'S' && !upper {
+			d := c.clone()
+			d.typs = c.typs[:i] + "L" + c.typs[i+1:]
+			if d.valid() {
+				out = append(out, d)
+			}
+		}
+	}
+	if c.rtype == "vector" || c.rtype == "string" && !upper {
+		d := c.clone()
+		d.rtype = "list"
+		if d.pred == "up" {
+			d.pred = "wrap"
+		}
+		if d.valid() {
+			out = append(out, d)
+		}
+	}
+	return out
+}
+
+// minimise shrinks a failing call to a locally smallest call with the same
+// kind of failure (first successful move, recursively), so that the
+// signature names only what the failure needs. It is a deterministic
+// function of the call. Verdicts of the visited calls are memoised inside the
+// process (a pure cache: it never changes a result).
 func minimise(c *call, kind string) *call {
+	if c.fn != memoFn {
+		memoFn, minMemo, kindMemo = c.fn, map[string]string{}, map[string]string{}
+	}
 	key := c.spec() + "\x00" + kind
 	if m, ok := minMemo[key]; ok {
 		d, _ := parseSpec(m)
 		return d
 	}
 	result := c
-	for _, red := range reductions(c) {
-		d := c.clone()
-		if !red(d) || !d.valid() {
-			continue
-		}
+	for _, d := range candidates(c) {
 		if kindOf(d) == kind {
 			result = minimise(d, kind)
 			break
@@ -315,9 +383,10 @@ func minimise(c *call, kind string) *call {
 	return result
 }
 
-const memoCap = 400000
+const memoCap = 1000000
 
 var (
+	memoFn   string
 	minMemo  = map[string]string{}
 	kindMemo = map[string]string{}
 )
@@ -477,6 +546,25 @@ func exec(spec string) (res engine.Result) {
 		res.Outcome = fmt.Sprintf("judge %v/op, form+expect %v/op, parse %v/op", t1.Sub(t0)/20000, t2.Sub(t1)/20000, t3.Sub(t2)/20000)
 		return
 	}
+	if strings.HasPrefix(spec, "time|") { // development aid: time|tier|fn  -> avg cost over every 16th case
+		f := strings.Split(spec, "|")
+		n, fails := 0, 0
+		var specs []string
+		enumerateFn(f[1], f[2], func(sp string) {
+			n++
+			if n%16 == 0 {
+				specs = append(specs, sp)
+			}
+		})
+		t0 := time.Now()
+		for _, sp := range specs {
+			if r := exec(sp); 0 < len(r.Failures) {
+				fails++
+			}
+		}
+		res.Outcome = fmt.Sprintf("%s: %d cases sampled, %d failing, %v/case", f[2], len(specs), fails, time.Since(t0)/time.Duration(len(specs)+1))
+		return
+	}
 	if strings.HasPrefix(spec, "histogram|") { // development aid: cases per function
 		m := map[string]int{}
 		enumerate(spec[10:], func(sp string) { m[sp[:strings.IndexByte(sp, '|')]]++ })
@@ -502,7 +590,7 @@ func exec(spec string) (res engine.Result) {
 		m := minimise(c, v.kind)
 		detail := v.detail
 		if m.spec() != c.spec() {
-			detail += "  [smallest keyword set with the same failure: " + judge(m).detail + "]"
+			detail += "  [smallest call with the same failure: " + judge(m).detail + "]"
 		}
 		res.Fail(m.signature(v.kind), detail)
 	}
